@@ -297,6 +297,22 @@ func run(ci any, r *mon.Rec) {
 			out := clientx.Run(c.Client, req, xport.Script{Reply: reply, DeadConn: true, Tail: "inject"}, opt)
 			x.verdict(out, "inject", 0, "dead-connection")
 		}
+		// the caller's budget is already spent when it calls (a context whose deadline has passed): that is the context's
+		// error, whatever the transport would have done - not a retryable transport fault
+		{
+			eo := opt
+			eo.CtxExpired, eo.CtxDeadline = true, 0
+			out := clientx.Run(c.Client, req, xport.Script{Reply: reply, Steps: xport.Cuts(L, nil, 0), Tail: "deadline"}, eo)
+			r.Eval(1)
+			switch {
+			case out.Hung || out.Panic != "":
+				r.Violate(c, "hang", mon.Attrs{"client": clientx.KindName(c.Client), "fc": int(c.FC), "fault": "expired-context"}, "Do with an expired context did not return / panicked: "+out.Panic)
+			case out.Err == nil:
+				// a reply that is already there may still be returned; nothing to classify
+			case !errors.Is(out.Err, context.DeadlineExceeded):
+				r.Violate(c, "wrong-error-class", mon.Attrs{"client": clientx.KindName(c.Client), "fc": int(c.FC), "fault": "expired-context"}, fmt.Sprintf("context deadline already passed at the call: want the context's error, got %T: %v", out.Err, out.Err))
+			}
+		}
 		// nil request: error before any transport call
 		out = clientx.Run(c.Client, nil, xport.Script{Reply: reply, Steps: xport.Cuts(L, nil, 0), Tail: "deadline"}, opt)
 		r.Eval(1)
